@@ -115,6 +115,24 @@ def facts(read, die, define):
     gw = _func_body(read("c/tskit/trees.c"), "tsk_treeseq_genetic_relatedness_weighted", die)
     out.append("Definition C09_relatedness_weighted_checks_indexes : bool := %s."
                % b(bool(re.search(r"check_set_indexes\s*\(", gw))))
+    # C09-9 class: the guard of the index copy in tsk_table_collection_copy
+    cp = _func_body(t, "tsk_table_collection_copy", die)
+    mm = re.search(r"if\s*\(([^{]*?)\)\s*\{\s*ret\s*=\s*tsk_table_collection_set_indexes\(", cp, re.S)
+    if not mm:
+        die("C09: index copy not found in tsk_table_collection_copy")
+    cond = " ".join(mm.group(1).split())
+    if re.fullmatch(r"tsk_table_collection_has_index\(self, 0\)", cond):
+        copy_ok = True
+    elif "num_edges" in cond and "num_rows" in cond:
+        copy_ok = True
+    elif "edge_insertion_order" in cond:
+        copy_ok = False
+    else:
+        die("C09: unrecognised guard of the index copy: %s" % cond)
+    hi = _func_body(t, "tsk_table_collection_has_index", die)
+    if not re.search(r"indexes\.num_edges\s*==\s*self->edges\.num_rows", hi):
+        copy_ok = False
+    out.append("Definition C09_copy_checks_has_index : bool := %s." % b(copy_ok))
     m = re.search(r"^#define\s+HARTIGAN_MAX_ALLELES\s+(\d+)", read("c/tskit/trees.c"), re.M)
     if not m:
         die("C09: HARTIGAN_MAX_ALLELES")
